@@ -14,7 +14,8 @@ for k in ('LBZIP2', 'BZIP2', 'BZIP'):
 
 def _common_opts(stdin_path=None, policy='P0', renv=None, wenv=None, sigs=None, spurious=0,
                  rfrag=0, wfrag=0, ign_sigpipe=False, setenv=None, heap_limit=0, timeout=None,
-                 argv0=None, chdir=None, fork=False, horizon=0, env_all_fds=False, cpu_base=0):
+                 argv0=None, chdir=None, fork=False, horizon=0, env_all_fds=False, cpu_base=0,
+                 fs_template=None, fs_work=None, fenv=None):
     o = []
     if stdin_path: o += ['--stdin', stdin_path]
     o += ['--policy', policy]
@@ -35,6 +36,9 @@ def _common_opts(stdin_path=None, policy='P0', renv=None, wenv=None, sigs=None, 
     if horizon: o += ['--horizon', str(horizon)]
     if fork: o += ['--fork']
     if cpu_base: o += ['--cpu-base', str(cpu_base)]
+    if fs_template: o += ['--fs-template', fs_template]
+    if fs_work: o += ['--fs-work', fs_work]
+    if fenv: o += ['--fenv', fenv]
     return o
 
 def run(variant, args, dev=None, save_stdout=None, save_stderr=None, cps=False, **kw):
